@@ -1346,7 +1346,11 @@ class EventBus:
                     monitor_task.cancel()
                 await monitor_task
             except asyncio.CancelledError:
-                pass  # Expected when we cancel the monitor
+                # Expected when we cancel the monitor, but never swallow a cancellation of the task we are running in
+                # (a parent handler's timeout, stop(), asyncio.run() exiting) that happens to arrive at this await
+                current_task = asyncio.current_task()
+                if current_task is not None and current_task.cancelling() > 0:
+                    raise
             except Exception as e:
                 # logger.debug(f"❌ {self} Handler monitor task cleanup error for {get_handler_name(handler)}#{str(id(handler))[-4:]}({event}): {type(e).__name__}: {e}")
                 pass
